@@ -212,3 +212,85 @@ def check_row(rep, ctx, rule, key, anchor_body, ctx_adt, variants, request_local
                     bad[0] if bad else anchor_body.span)
     return g
 
+
+
+# ---------------------------------------------------------------------------------------------------------
+# R5m: the admission must observe the size of the request object itself, not of something derived from it
+EXACT_NAMES = ("iter", "into_iter", "as_ref", "deref", "borrow", "clone", "as_slice", "polynomial", "next", "zip",
+               "enumerate", "unwrap", "expect", "branch", "by_ref", "as_deref", "cloned", "copied", "rev")
+
+
+def exact_views(g, start):
+    """forward over moves, parameter passing and view / element-extraction calls: aliases of (parts of) the value."""
+    seen = {start}
+    dq = deque([start])
+    while dq:
+        n = dq.popleft()
+        for e in g.fwd.get(n, ()):
+            if e.kind != DATA or e.dst == OUTCOME or e.dst in seen:
+                continue
+            if not (isinstance(e.dst, tuple) and len(e.dst) == 2 and isinstance(e.dst[1], int) and e.dst[1] >= 0):
+                continue
+            ok = e.op in (MOVE, "hof", "field") or (e.op == "foreign" and LG._is_result_edge(g, e)
+                                                     and LG._callee_name(g, e) in EXACT_NAMES)
+            if ok:
+                seen.add(e.dst)
+                dq.append(e.dst)
+    return seen
+
+
+def size_observations(g, nodes):
+    """integers read off the given values: lengths and results of integer-returning calls on them (degree(),
+    num_vars(), size()), closed under data flow."""
+    seeds = set()
+    for a in nodes:
+        for e in g.fwd.get(a, ()):
+            if e.kind != DATA or e.dst == OUTCOME:
+                continue
+            ty = g.node_ty(e.dst)
+            if e.op == "shape" or (e.op == "foreign" and ty in ("usize", "u64", "u32")):
+                seeds.add(e.dst)
+    return LG.data_closure(g, seeds, limit=600)
+
+
+def controlling_conditions(g, bid, blk):
+    """condition locals of the branches the block is (transitively) control dependent on, within its body."""
+    b = g.facts.bodies[bid]
+    cd = b.control_deps()
+    out = set()
+    seen = set()
+    st = [blk]
+    while st:
+        x = st.pop()
+        for c in cd.get(x, ()):
+            if c in seen:
+                continue
+            seen.add(c)
+            t = b.blocks[c]["term"]
+            if t["k"] in ("switch", "assert") and t["op"]["k"] in ("copy", "move"):
+                out.add((bid, t["op"]["pl"]["l"]))
+            st.append(c)
+    return out
+
+
+def check_measured(rep, ctx, rule, key, anchor_body, ctx_adt, variant, param_idx, what, g=None):
+    from ..flow import Graph
+    f = ctx.facts
+    if g is None:
+        g = Graph(f, f.closure([anchor_body.id], ctx_adt), [anchor_body.id], ctx_adt)
+    obs = size_observations(g, exact_views(g, (anchor_body.id, param_idx)))
+    sites = error_sites(g, variant)
+    ok_sites = []
+    for (bid, blk, l) in sites:
+        g.reach([(bid, l)], want=OUTCOME)
+        if g.last_goal is None:
+            continue
+        if controlling_conditions(g, bid, blk) & obs:
+            ok_sites.append((bid, blk))
+    rep.add(rule, "%s:measures:%s:%s" % (key, variant, what), bool(ok_sites),
+            ("Error::%s is raised on a condition computed from the size of the %s itself (%s)" % (variant, what, where_of(f, *ok_sites[0])))
+            if ok_sites else
+            ("no Error::%s in %s is conditioned on a size observation of the %s itself (%d construction site(s) look only at "
+             "derived objects): a request just beyond the limit can slip through" % (variant, short(anchor_body.id), what, len(sites))),
+            anchor_body.span)
+    return g
